@@ -4,6 +4,8 @@ import os
 import time
 
 VERIF = os.path.dirname(os.path.dirname(os.path.abspath(__file__)))
+# checker self-tests (tools/refcheck.py) run the same rules against scratch copies; their evidence must not overwrite /repo's
+EVID = os.environ.get("VERIF_EVIDENCE_DIR") or os.path.join(VERIF, "evidence")
 KNOWN = os.path.join(VERIF, "known_findings.json")
 
 
@@ -82,7 +84,7 @@ class Report:
                     lines.append("KNOWN-FINDING: property=%s %s [%s] %s" % (self.prop, known[key].get("what", msg), key, where))
             else:
                 new.append((key, msg, where, detail))
-        vdir = os.path.join(VERIF, "evidence", "violations", self.prop)
+        vdir = os.path.join(EVID, "violations", self.prop)
         if os.path.isdir(vdir):
             for f in os.listdir(vdir):
                 os.remove(os.path.join(vdir, f))
@@ -141,8 +143,8 @@ class Report:
             "wall_s": round(time.time() - self.t0, 2),
             "violations": len(new),
         }
-        os.makedirs(os.path.join(VERIF, "evidence"), exist_ok=True)
-        with open(os.path.join(VERIF, "evidence", self.prop + ".json"), "w") as fh:
+        os.makedirs(EVID, exist_ok=True)
+        with open(os.path.join(EVID, self.prop + ".json"), "w") as fh:
             json.dump(ev, fh, indent=1)
         for ln in lines:
             print(ln)
